@@ -1,7 +1,7 @@
 """C15 - lifespan trimming keeps exactly the window and leaves its readings unchanged."""
 from __future__ import annotations
 
-from datetime import timedelta
+from datetime import datetime, timedelta
 
 from hypothesis import strategies as st
 
@@ -49,6 +49,73 @@ def retention_cases(draw, max_n=40):
         "preload": preload,
         "chunks": draw(gs.chunking(n - preload)),
     }
+
+
+@st.composite
+def retention_tz_cases(draw, max_n=30):
+    """timezone-aware timestamps whose UTC offset changes along the stream (a DST switch, a feed that changes its
+    zone): "older than the newest timestamp minus the lifespan" is a statement about instants, not wall clocks"""
+    rows = draw(gs.streams(2, max_n, tf_s=None, with_ts=True, zero_volume_runs=False))
+    n = len(rows)
+    span = rows[-1][0] - rows[0][0]
+    offs, cur = [], draw(st.sampled_from((0, 60, -300, 330)))
+    for _ in range(n):
+        if draw(st.integers(0, 5)) == 0:
+            cur = max(-720, min(840, cur + draw(st.sampled_from((60, -60, 120, -90)))))  # real zones: UTC-12 .. UTC+14
+        offs.append(cur)
+    lifespan = draw(st.one_of(st.sampled_from((60, 300, 3600, 7200, 3 * 3600 + 1)), st.integers(0, max(1, span + 60))))
+    preload = min(n, draw(st.sampled_from((0, 0, 1, 2, n // 2))))
+    return {"kind": "retention_tz", "mode": draw(st.sampled_from(("manager", "indicator"))), "lifespan": lifespan, "stream": rows, "offs": offs, "preload": preload, "chunks": draw(gs.chunking(n - preload))}
+
+
+def _run_retention_tz(case) -> Result:
+    from datetime import timezone
+
+    from hexital.core.candle import Candle
+    from hexital.core.candle_manager import CandleManager
+
+    rows, offs, life = case["stream"], case["offs"], case["lifespan"]
+    utc0 = datetime(1970, 1, 1, tzinfo=timezone.utc)
+
+    def mk(k):
+        ts, o, h, l, c, v = rows[k]
+        return Candle(o, h, l, c, v, timestamp=(utc0 + timedelta(seconds=ts)).astimezone(timezone(timedelta(minutes=max(-720, min(840, offs[k % len(offs)]))))))
+
+    pre = max(0, min(case.get("preload", 0), len(rows)))
+    bounds = [(pre + a, pre + b) for a, b in split_chunks(len(rows) - pre, case.get("chunks", []))]
+    kw = {"candles_lifespan": timedelta(seconds=life)}
+    labels = ["retention_tz"]
+    try:
+        if case.get("mode") == "manager":
+            obj = CandleManager([mk(k) for k in range(pre)], **kw)
+        else:
+            obj = build_indicator({"cls": "HighLowAverage", "kw": {}}, candles=[mk(k) for k in range(pre)], **kw)
+            obj.calculate()
+    except Exception as exc:
+        return Result([raises(exc, "retention")], False, labels)
+    trimmed, offset_change_in_window = False, False
+    sent = pre
+    for t, (a, b) in enumerate([(0, pre)] + bounds):
+        if t:
+            try:
+                obj.append([mk(k) for k in range(a, b)])
+            except Exception as exc:
+                return Result([raises(exc, "retention")], False, labels)
+            sent = b
+        if not sent:
+            continue
+        newest = rows[sent - 1][0]
+        want = [k for k in range(sent) if rows[k][0] >= newest - life]
+        got = [round((c.timestamp - utc0).total_seconds()) for c in obj.candles]
+        if len(want) < sent:
+            trimmed = True
+            if len({offs[k % len(offs)] for k in range(max(0, want[0] - 1), sent)}) > 1:
+                offset_change_in_window = True
+        if got != [rows[k][0] for k in want]:
+            return Result([Violation("retained-window-wrong", case.get("mode", "indicator") + "+tz", f"after append {t}: retained {len(got)} candles (oldest instant {got[0] if got else None}), expected {len(want)} (oldest {rows[want[0]][0] if want else None}); newest {newest} lifespan {life} offsets(min) {offs[:sent]}", "retention")], True, labels)
+    if offset_change_in_window:
+        labels.append("offset_change_near_cut")
+    return Result([], trimmed and offset_change_in_window, labels)
 
 
 @st.composite
@@ -162,6 +229,8 @@ def _mk(case, lifespan):
 
 
 def run_case(case) -> Result:
+    if case.get("kind") == "retention_tz":
+        return _run_retention_tz(case)
     subject = gc.subject_of(case["cfg"]) if "cfg" in case else "retention"
     life = case["lifespan"]
     labels = [case["kind"]] + (["ha"] if case.get("ha") else []) + (["recursive_short_window"] if case.get("recursive") else []) + (["window_exact"] if case.get("window_exact") else [])
@@ -247,6 +316,7 @@ def run_case(case) -> Result:
 def shards(tier):
     n = 1000 if tier == "quick" else 25000
     out = [Shard(f"retention-{i}", lambda: retention_cases(), n, subject="retention") for i in range(6)]
+    out += [Shard(f"retention-tz-{i}", lambda: retention_tz_cases(), n // 2, subject="retention") for i in range(2)]
     m = 60 if tier == "quick" else 1500
     for s in gc.CLASSES:
         cost = 3 if s in ("ADX", "TSI", "STOCH", "MACD", "HMA", "Supertrend") else 1
